@@ -21,12 +21,12 @@ CHECKS = {
             'call-chain path counting, constant folding, wait-for ordering on channel sites'),
     'C03': ('delivery chain terminate -> foreign_raise complete for every kind (message-flow over send/recv sites, opcode exhaustiveness, argument binding); release of blocked persistent children; at every asynchronous landing point of the child-main the outcome reaching the parent is recorded',
             'message-flow reachability + per-landing-point CFG path analysis over async edges'),
-    'C04': ('no unbounded blocking call on any path of wait/terminate when a timeout is given; truthful return expressions; dead-guard typestate; force path reachable; exceptions of the injection / control RPC handled',
-            'blocking-call discipline, dominance and handler coverage on the CFG'),
+    'C04': ('no unbounded blocking call on any path of wait/terminate when a timeout is given; truthful return expressions; dead-guard typestate; force path reachable; exceptions of the injection / control RPC handled; on the parent side of the remote kind the dead cache needs evidence that the remote child is dead too; the recorded thread ident is never used for identity decisions; a forced kill shuts the data socket down',
+            'blocking-call discipline, dominance and handler coverage on the CFG, who-may-read frame, sibling agreement of the socket-release branches'),
     'C05': ('sibling agreement of the three persistent input loops (pristine deep-copied defaults per iteration, slice merge, kwargs update, one run, one counted emission), list-typed merge target, counter/stream agreement, enqueue guards, channel ownership',
             'cross-checking sibling implementations, def-use, who-may-write'),
-    'C06': ('end-of-stream marker or channel close on every exit of the producer side including exception and async edges; reader side non-blocking once dead and maps transport failures to queue.Empty; clean-up reads only definitely-assigned state',
-            'must-pass-through on the CFG with exception/async edges, handler coverage, definite assignment'),
+    'C06': ('end-of-stream marker or channel close on every exit of the producer side including exception and async edges; reader side non-blocking once dead and maps transport failures to queue.Empty; clean-up reads only definitely-assigned state; the reader latches the end of the stream (no read after the marker); sockets of the remote protocol are blocking; child death and forced kill shut the data socket down',
+            'must-pass-through on the CFG with exception/async edges, handler coverage, definite assignment, reader typestate, socket frame rules'),
     'C07': ('bookkeeping invariants of Pool.run: conservation of an input on every path of the enqueue logic, paired counter/list updates, closed-worker discipline, single append site, verdict formula, exception coverage of the multiplexed read',
             'linear-resource / dominance analysis of Pool.run closures'),
     'C08': ('single PoolError raise dominated by not ok after a loop with the live-worker conjunct; partial_results is the single-writer result list; no hand-over of an input without death evidence',
@@ -37,8 +37,8 @@ CHECKS = {
             'AST loop recogniser + CFG dominators + exception-escape summaries'),
     'C11': ('no client-induced exception can leave the accept loop; no unbounded wait of the accept thread depends on the client only; abandoned clients are closed; registries mutated only after success; every mp.connection use has a structural reason why the submodule is imported',
             'tainted exception edges vs handler position, blocking-call multiplexing check, who-may-write, submodule-import rule'),
-    'C12': ('reap loop of the server covers every registry with forced terminate and SIGTERM fallback; registration on creation; graceful path reaches the reap loop',
-            'site/shape checks on RemoteServer.run and the release chain'),
+    'C12': ('reap loop of the server covers every registry with forced terminate and SIGTERM fallback; registration on creation; graceful path reaches the reap loop; the context helper reaches the reaping of its children on every exit wherever the reaping lives; child death and forced kill shut the data socket down (helpers followed)',
+            'site/shape checks on RemoteServer.run and the release chain, must-pass-through across the clean-up hook'),
     'C13': ('private dispatch table chains to copyreg; remote=False installs no remote reducer; __getstate__ remote flags default to False and are passed by keyword; dynamic table routes only opt-in classes',
             'dataflow into dispatch_table, dominance by the remote flag, signature checks'),
     'C14': ('exactly one flagged __getstate__ call per reduce; reduce value shape; optional-hook guards; who-may-write frame on the payload variables (what is sent is what was taken); frame-balance belief check of break_patches/child_restored',
@@ -49,8 +49,8 @@ CHECKS = {
             'channel send/receive sequence agreement, who-may-write, call-graph reachability, must-pass-through on the CFG'),
     'C17': ('__dict__.clear() dominated by death evidence; constructor-argument completeness of _get_restart_args; re-initialisation through type(self).__init__ with _is_restart; Pool.restart_workers re-keys both maps',
             'dominance + set comparison over resolved __init__ chains'),
-    'C18': ('context table protocol: insert only if absent, boolean reply, non-raising lookups/removal on client-supplied ids; injected-key agreement; delete chain wait->terminate; client maps False to ValueError',
-            'site/shape checks + key-set agreement'),
+    'C18': ('context table protocol: insert only if absent, boolean reply, non-raising lookups/removal on client-supplied ids; injected-key agreement; delete chain wait->terminate; client maps False to ValueError; the reply is decided within the request that is answered',
+            'site/shape checks + key-set agreement, reaching-definition check on the accept loop'),
     'C19': ('pruned registry written back to the attribute that is read, computed entirely inside the storing critical section (provenance of the written-back value); lock discipline and no yield under the lock; registration after successful start, idempotent; autoclose chain close->wait->terminate in finally',
             'def-use on class attributes, lock-scope check, path check'),
     'C20': ('every untimed Event.wait() in a constructor closure is matched by set() on every exit of the started thread; start-up receives from spawned processes are sentinel-guarded; failure releases resources; registration after _start; every mp.connection use has a structural reason why the submodule is imported',
